@@ -130,6 +130,10 @@ structure Handler where
   sink : Nat
   list : Slice
 
+/-- `Config.Normalize` as far as it is data: no (or a nil) `Leveler` means `slog.LevelInfo` = 0, a negative
+    `BufferDepth` means 0 -/
+def normalize (level : Option Int) (depth : Int) : Int × Nat := (level.getD 0, depth.toNat)
+
 /-- `Enabled` -/
 def enabled (h : Handler) (level : Int) : Bool := decide (level ≥ h.level)
 
@@ -153,6 +157,9 @@ inductive ErrKind where
   | plain      -- a fresh `errors.New(..)`
   | fresh      -- a fresh `*errs.Error`
   | sentinel   -- one long-lived `*errs.Error` per sink: the same pointer on every call
+  | aggregate  -- one long-lived `*errs.Error` chain of two errors per sink
+  | typedNil   -- a nil `*errs.Error` inside a non-nil `error` interface
+  | foreignNil -- a nil pointer of a foreign error type inside a non-nil `error` interface
 deriving DecidableEq
 
 /-- behaviour of the sink's `Write` -/
